@@ -98,6 +98,14 @@ def gen_cases(run, spec, nsets, nil_modes):
             recv = None if k % 2 == 0 else mapgen.gen_value(rng, spec, sty, 0.3, sent)
             cases.append({"dir": "from", "type": spec["root"], "in": mapgen.gen_value(rng, spec, dty, mode, sent),
                           "recv": recv})
+    # round trip new(S).FromX(v.ToX()): the same inputs as the ToX cases (every other one) and a fully allocated one
+    if way == "both":
+        tos = [c for c in cases if c["dir"] == "to"]
+        for c in tos[::2]:
+            cases.append({"dir": "rt", "type": spec["root"], "in": c["in"], "recv": None})
+        cases.append({"dir": "rt", "type": spec["root"],
+                      "in": mapgen.gen_value(rng, spec, sty, 0.0, mapgen.Sentinels(rng)), "recv": None})
+        cases.append({"dir": "rt", "type": spec["root"], "in": None, "recv": None})
     # nil receiver / nil argument
     if way != "fromonly":
         cases.append({"dir": "to", "type": spec["root"], "in": None, "recv": None})
@@ -134,6 +142,7 @@ def finding_handlers(run, shoot):
     return {"K_map_src_named_qualified": generic, "K_map_submap_nonstruct": generic, "K_map_alias_all_pkgs": generic,
             "K_map_roundtrip_nil_embed": generic, "K_map_fanout_target": generic, "K_map_nested_tag_ignored": generic,
             "K_map_dash_accessor": generic, "K_map_ctor_from_tag": generic, "K_map_mapper_ptr_embedded": generic,
+            "K_map_tag_underscore": generic, "K_map_embedded_nonstruct": generic,
             "K_map_universe_panic": universe}
 
 
@@ -170,7 +179,8 @@ def report(run, pairs, verdicts, guards, theorem, corr):
         p = idx[pi]
         if ci == -1:
             run.violation(mh.replay_dict(p, extra={"kind": "-way: wrong method set", "methods_observed": p.methods,
-                                                   "theorem": "C05_way"}))
+                                                   "theorem": "(no theorem: the sentence `-way limits generation` is checked by "
+                                                              "reflection on the compiled package only, Corr.way_mismatches)"}))
         elif v == 2:
             run.violation(mh.replay_dict(p, ci, v, {"kind": "property-fails-on-implementation", "theorem": theorem,
                                                     "in_guard": guards.get(pi)}))
@@ -223,8 +233,9 @@ def main(run):
                        "dest.go": p.sources["%s/dest/dest.go" % p.sub], "case": c})
     cov = {
         "evaluations": ncases + n_tr + n_mt,
+        "round_trip_cases": sum(1 for p in ok_pairs for c in p.cases if c["dir"] == "rt"),
         "distinct_nontrivial": len(distinct),
-        "rule": ("%d src/dest package pairs: the 10 hand-written corpus pairs of mapgen.corpus() (one per rule of the property) and random ones from harness/mapgen.py (numeric widths, strings, named scalars of "
+        "rule": ("%d src/dest package pairs: the 16 hand-written corpus pairs of mapgen.corpus() (one per rule of the property and one per finding class of the review: pointer-embedded mapper with value/pointer receivers, tags with `_`, embedded non-struct) and random ones from harness/mapgen.py (numeric widths, strings, named scalars of "
                  "the dest/common packages, sub-structs by value/pointer/slice in all four pointer combinations, "
                  "maps, embedded value/pointer structs to depth 2 with shadowing, map:\"Name\"/map:\"-\" tags, "
                  "mapper-method sets in the source or a separate package incl. duplicate signatures, manual toX/fromX, "
